@@ -23,6 +23,7 @@ import (
 	"github.com/smallnest/rpcx/log"
 	"github.com/smallnest/rpcx/protocol"
 	"github.com/smallnest/rpcx/share"
+	"github.com/smallnest/rpcx/verifhook"
 	"github.com/soheilhy/cmux"
 	"golang.org/x/net/websocket"
 )
@@ -528,6 +529,7 @@ func (s *Server) serveConn(conn net.Conn) {
 }
 
 func (s *Server) processOneRequest(ctx *share.Context, req *protocol.Message, conn net.Conn) {
+	verifhook.Hit("server.process.enter", req)
 	defer func() {
 		if r := recover(); r != nil {
 			buf := make([]byte, 1024)
